@@ -40,9 +40,9 @@ func verifC16Time() time.Time { return time.Unix(1700000000, 0).UTC() }
 
 type verifC16Key struct{ id uint8 }
 
-func (verifC16Key) String() string        { return "verifkey" }
-func (k verifC16Key) Bytes() []byte       { return []byte{'k', k.id} }
-func (verifC16Key) IsValid([]byte) error  { return nil }
+func (verifC16Key) String() string       { return "verifkey" }
+func (k verifC16Key) Bytes() []byte      { return []byte{'k', k.id} }
+func (verifC16Key) IsValid([]byte) error { return nil }
 func (k verifC16Key) Equal(o base.PKKey) bool {
 	ok, is := o.(verifC16Key)
 	return is && ok.id == k.id
@@ -90,13 +90,17 @@ func verifC16Point(name string) base.Point {
 	return base.NewPoint(h, r)
 }
 
+// verifC16SignNetwork: the network id the voteproof helpers sign ballots for (another one than
+// verifC16NetworkID makes a voteproof whose signatures do not verify).
+var verifC16SignNetwork = verifC16NetworkID
+
 func verifC16INITVoteproof(point base.Point, proposal util.Hash) isaac.INITVoteproof {
 	fact := isaac.NewINITBallotFact(point, valuehash.NewSHA256([]byte("previous-block")), proposal, nil)
 	sfs := make([]base.BallotSignFact, 2)
 	for i := range sfs {
 		node, key := verifC16Node(i)
 		sf := isaac.NewINITBallotSignFact(fact)
-		verifrt.Assert(sf.NodeSign(key, verifC16NetworkID, node) == nil, "C16.harness.sign")
+		verifrt.Assert(sf.NodeSign(key, verifC16SignNetwork, node) == nil, "C16.harness.sign")
 		sfs[i] = sf
 	}
 	vp := isaac.NewINITVoteproof(point)
@@ -117,7 +121,7 @@ func verifC16ACCEPTVoteproof(point base.Point, proposal util.Hash, blocks [2]uti
 			first = fact
 		}
 		sf := isaac.NewACCEPTBallotSignFact(fact)
-		verifrt.Assert(sf.NodeSign(key, verifC16NetworkID, node) == nil, "C16.harness.sign")
+		verifrt.Assert(sf.NodeSign(key, verifC16SignNetwork, node) == nil, "C16.harness.sign")
 		sfs[i] = sf
 	}
 	vp := isaac.NewACCEPTVoteproof(point)
@@ -444,10 +448,10 @@ type verifC16Reader struct {
 	items []interface{}
 }
 
-func (r verifC16Reader) Type() base.BlockItemType        { return r.t }
-func (r verifC16Reader) Encoder() encoder.Encoder         { return nil }
-func (r verifC16Reader) Reader() *util.CompressedReader   { return nil }
-func (r verifC16Reader) Decode() (interface{}, error)     { return r.one, nil }
+func (r verifC16Reader) Type() base.BlockItemType       { return r.t }
+func (r verifC16Reader) Encoder() encoder.Encoder       { return nil }
+func (r verifC16Reader) Reader() *util.CompressedReader { return nil }
+func (r verifC16Reader) Decode() (interface{}, error)   { return r.one, nil }
 func (r verifC16Reader) DecodeItems(f func(total uint64, index uint64, _ interface{}) error) (uint64, error) {
 	for i := range r.items {
 		if err := f(uint64(len(r.items)), uint64(i), r.items[i]); err != nil {
@@ -581,4 +585,50 @@ func VerifC16ImporterContent() {
 		verifrt.Reach("C16.import.accepted-by-both")
 	}
 	verifrt.Assert(validator == nil, "C16.imported-block-is-stored-only-if-it-would-also-pass-the-repository's-own-block-validator(items-match-the-manifest's-tree)")
+}
+
+// VerifC16ImporterVoteproofs: the real BlockImporter.importVoteproofs on a decoded voteproofs item
+// against the validator's check of the same item (isValidVoteproofsFromLocalFS). The item: INIT and
+// ACCEPT voteproofs of rounds 0/1 of the manifest's height, the ACCEPT one a majority for the manifest
+// or for another block; each of the two signed for the right network or for another one (so that
+// Voteproof.IsValid fails for exactly that one). Every schedule of whatever goroutines the importer
+// uses for this. The importer lets the item pass => the validator accepts it too.
+func VerifC16ImporterVoteproofs() {
+	proposal := valuehash.NewSHA256([]byte("proposal-fact"))
+	m := verifC16Manifest(verifC16Height, proposal, nil, nil)
+	bm := NewBlockMap()
+	bm.SetManifest(m)
+	im := &BlockImporter{bwdb: &verifC16BWDB{}, networkID: verifC16NetworkID, m: bm}
+
+	other := base.NetworkID("another-network")
+	ipoint := base.NewPoint(verifC16Height, base.Round(verifrt.NondetChoice("init.round", 2)))
+	apoint := base.NewPoint(verifC16Height, base.Round(verifrt.NondetChoice("accept.round", 2)))
+	ibad := verifrt.NondetChoice("init.signed-for-another-network", 2) == 1
+	abad := verifrt.NondetChoice("accept.signed-for-another-network", 2) == 1
+	if ibad {
+		verifC16SignNetwork = other
+	}
+	ivp := verifC16INITVoteproof(ipoint, proposal)
+	verifC16SignNetwork = verifC16NetworkID
+	if abad {
+		verifC16SignNetwork = other
+	}
+	block := m.Hash()
+	if verifrt.NondetChoice("accept.for-another-block", 2) == 1 {
+		block = valuehash.NewSHA256([]byte("another-block"))
+	}
+	avp := verifC16ACCEPTVoteproof(apoint, proposal, [2]util.Hash{block, block}, false)
+	verifC16SignNetwork = verifC16NetworkID
+	vps := [2]base.Voteproof{ivp, avp}
+
+	validator := isValidVoteproofsFromLocalFS(verifC16NetworkID, vps, m)
+	err := im.importVoteproofs(verifC16Reader{t: base.BlockItemVoteproofs, one: vps})
+	verifrt.Reach("C16.import-voteproofs.returned")
+	if err != nil {
+		verifrt.Reach("C16.import-voteproofs.rejected")
+		return
+	}
+	verifrt.Reach("C16.import-voteproofs.accepted")
+	verifrt.Assert(!ibad && !abad, "C16.import.voteproofs-that-are-not-wellformed-and-signed-are-not-imported")
+	verifrt.Assert(validator == nil, "C16.imported-block-is-stored-only-if-it-would-also-pass-the-repository's-own-block-validator(voteproofs)")
 }
